@@ -648,7 +648,11 @@ pub fn run(rp: &Replay, st: &mut Stats) -> Option<Violation> {
         st.count("monitor_mode_runs");
     }
     let slot = rp.config["slot"].as_u64().unwrap_or(0).min(256);
-    let base = arena() + 16 * slot;
+    // (in units of the type's own alignment, 16 today: a table placed below its alignment would be
+    // the harness's mistake, not the crate's)
+    let unit = core::mem::align_of::<Idt>() as u64;
+    let slot = slot.min(8192 / unit);
+    let base = arena() + unit * slot;
     let idt = base as *mut Idt;
     // a fresh table: `new()` is the crate's constructor; its result is judged below like any other state
     if let Err(m) = sut_call("InterruptDescriptorTable::new", || unsafe { idt.write(Idt::new()) }) {
@@ -775,12 +779,16 @@ pub fn run(rp: &Replay, st: &mut Stats) -> Option<Violation> {
             }
             "load" => {
                 let safe = s["safe"].as_bool().unwrap_or(false);
+                // (single-stepped: whatever unprivileged instructions surround the lidt - an sidt
+                // read-back, say - see the simulated machine, not the host)
                 let r = sut_call("load", || unsafe {
-                    if safe {
-                        core::mem::transmute::<&Idt, &'static Idt>(&*idt).load()
-                    } else {
-                        (*idt).load_unsafe()
-                    }
+                    monitor(|| {
+                        if safe {
+                            core::mem::transmute::<&Idt, &'static Idt>(&*idt).load()
+                        } else {
+                            (*idt).load_unsafe()
+                        }
+                    })
                 });
                 st.calls += 1;
                 if let Err(m) = r {
